@@ -116,9 +116,9 @@ ARRAY_TIMEOUT = 900
 def array_pairs(tier):
     if tier != "quick":
         return [(a, b) for a in ARRAY_TYPES for b in ARRAY_TYPES if a <= b]
-    # quick: same-type pairs of seven representative types, boolean arrays against each other (F_T: every T/F mix) and
+    # quick: same-type pairs of five representative types, boolean arrays against each other (F_T: every T/F mix) and
     # against one type from each side of 'F' < 'I' < 'N' < 'S' < 'T' < lower case, and a few unrelated pairs
-    same = [(t, t) for t in "ihfsbtm"]
+    same = [(t, t) for t in "ihfbt"]
     cross = [("F", "T"), ("T", "i"), ("F", "i"), ("F", "S"), ("S", "T"), ("F", "I"), ("N", "T"), ("T", "b"), ("f", "i"), ("S", "s")]
     return same + cross
 
@@ -130,17 +130,22 @@ def array_obligations(ctx):
     obls = []
     for a, b in array_pairs(ctx.tier):
         # boolean x boolean: 7 x 7 T/F mixes; split by the two lengths to keep each run short
-        splits = [(l, r) for l in range(3) for r in range(3)] if (a in "TF" and b in "TF") else [None]
+        # (2 x 2 elements: 16 mixes, split once more by the left mix: symex time is superlinear in the iterations)
+        splits = [None]
+        if a in "TF" and b in "TF":
+            splits = [(l, r, None) for l in range(3) for r in range(3) if (l, r) != (2, 2)] + [(2, 2, (0, 1)), (2, 2, (2, 3))]
         for sp in splits:
             d = srcdefs(ctx); d.update({"H_ARRAY": None, "C16_LT": str(ord(a)), "C16_RT": str(ord(b))})
             name = "C16.array.%s_%s" % (a, b)
             if sp is not None:
-                d["C16_LN"] = str(sp[0]); d["C16_RN"] = str(sp[1]); name += ".l%d_r%d" % sp
+                d["C16_LN"] = str(sp[0]); d["C16_RN"] = str(sp[1]); name += ".l%d_r%d" % sp[:2]
+                if sp[2]:
+                    d["C16_LMIX_LO"] = str(sp[2][0]); d["C16_LMIX_HI"] = str(sp[2][1]); name += ".m%d%d" % sp[2]
             obls.append(Obl(name, PID, S, entry="h_array", defines=d, includes=inc, mode="bounded",
                             bound="arrays of 0..2 elements (no nested arrays; string/blob elements of 0..1 bytes), both directions",
                             cbmc=UW, timeout=ARRAY_TIMEOUT, mem_gb=6,
                             case={"left element type": a, "right element type": b,
-                                  "lengths": "0..2 x 0..2" if sp is None else "%d x %d" % sp}))
+                                  "lengths": "0..2 x 0..2" if sp is None else "%d x %d" % sp[:2]}))
     d = srcdefs(ctx); d.update({"H_SPEC_LAWS_ARRAY": None})
     obls.append(Obl("C16.spec_laws.arrays", PID, S, entry="h_spec_laws_array", defines=d, includes=inc, mode="bounded",
                     bound="spec only: three arrays of 0..2 elements, element types F T I N S i h", cbmc=UW, timeout=600))
@@ -166,7 +171,7 @@ def shape_len(sh):
 
 
 QUICK_SHAPES = [
-    [], [P("i")], [R("i", 3)], [R("i", 3, 1)], [R("h", 3, 1)], [R("c", 2, 1), P("T")], [R("T", 3)],
+    [], [P("i")], [R("i", 3)], [R("i", 3, 1)], [R("c", 2, 1), P("T")], [R("T", 3)],      # (3dh: thorough only, 40..90 s)
     [R("F", 2), P("i")], [P("i"), R("i", 2)], [R("h", 2), P("h")], [R("i", 1)], [R("i", 1, 1)],
     [R("i", 2, 1), R("c", 1)], [P("T"), R("i", 2, 1)], [P("h"), P("i"), P("F")], [R("c", 3)], [R("h", 2, 1), P("h")],
 ]
@@ -287,7 +292,7 @@ def ar_shapes(tier):
     return uniq
 
 
-AR_TIMEOUT = 300
+AR_TIMEOUT = 240
 
 
 def array_range_obligations(ctx):
@@ -299,7 +304,8 @@ def array_range_obligations(ctx):
 
     def flags(sh, kxmax):
         rep, n, et, mix, pre, post = sh
-        lb = pre + kxmax + post + 2            # iterations of the list loops of eq/cmp (+ exit check + 1)
+        # the loops of eq/cmp run over min(values of both sides) <= pre+rep+post at list level and over n array elements
+        lb = max(pre + rep + post, n) + 1
         # recursion list -> array -> element needs depth 2: cut at 3, so that an element type that became arbitrary
         # (a read outside an object) ends in the pointer failure instead of unwinding eq_single <-> eq 12 deep
         return ["--unwind", "12", "--unwinding-assertions", "--unwindset",
@@ -319,6 +325,8 @@ def array_range_obligations(ctx):
         case = dict(zip(("rep_num", "array length", "element type", "T/F mix bits", "plain value before", "plain value after"), sh))
         obls.append(Obl("C16.list_arrange_eq.%s" % key, PID, S, entry="h_ar_eq", defines=defs(sh, "H_AR_EQ"), includes=inc,
                         mode="bounded", bound=bound, cbmc=flags(sh, rep), timeout=AR_TIMEOUT, case=case))
+        obls.append(Obl("C16.list_arrange_eq1.%s" % key, PID, S, entry="h_ar_eq", defines=defs(sh, "H_AR_EQ", {"AR_ONECALL": None}),
+                        includes=inc, mode="bounded", bound=bound, cbmc=flags(sh, rep), timeout=AR_TIMEOUT, mem_gb=12, case=case))
         obls.append(Obl("C16.list_arrange_itr.%s" % key, PID, S, entry="h_ar_itr", defines=defs(sh, "H_AR_ITR"), includes=inc,
                         mode="bounded", bound=bound, cbmc=flags(sh, rep), timeout=AR_TIMEOUT, case=case))
         for kx in (rep - 1, rep, rep + 1):
